@@ -181,12 +181,12 @@ def reference(model, name):
     from ref import wbeval as W
     o = ops_for(model)[name]
     spec = M.MODELS[model]()
-    if o[0] == 'calc':
-        ref, _ = W.solve(spec, o[2])
-        return ref
-    if o[0] == 'compile':
-        ref, _ = W.solve(spec, o[2])
-        return ref
+    try:
+        if o[0] in ('calc', 'compile'):
+            ref, _ = W.solve(spec, o[2])
+            return ref
+    except W.Ambiguous:
+        pass
     return None
 
 
